@@ -458,6 +458,31 @@ def run_hist_kernel_case(case, ctx, res):
     # the scheduler (and takes minutes per call)
     chunks = CHUNKS if n <= 5000 else [0, max(1, n // 4096), max(1, n // 256), max(1, n // 17)]
     info = sweep(res, pu.hist2d, args, None, ref, label, reps=3 if not big else 15, compare=compare, chunks=chunks)
+    # "identical for any thread count or scheduling" is also a statement about rounding: with weights whose sum
+    # depends on the order of additions, every configuration must reproduce the single-thread result bit for bit
+    # (judged between runs of the shipped build only - no oracle is involved, so a summation order that is merely
+    # different from the model's cannot be flagged, only one that changes with the schedule)
+    if not res.violations:
+        m2 = min(n, 200000)
+        fv = np.empty((1, m2))
+        fv[0, 0::3] = 1.0e16
+        fv[0, 1::3] = 1.0
+        fv[0, 2::3] = -1.0e16
+        fv[0] *= rng.uniform(0.5, 1.5, size=m2)
+        fargs = (x[:m2], y[:m2], fv) + args[3:]
+        import numba
+        numba.set_num_threads(1)
+        first = pu.hist2d(*fargs)
+
+        def same_as_first(outs, reference):
+            if not (np.array_equal(outs[0], reference[0], equal_nan=True) and np.array_equal(outs[1], reference[1])):
+                d = np.abs(outs[0] - reference[0])
+                return f"sums differ from the single-thread run by up to {float(np.nanmax(d))!r} (rounding depends on the schedule)"
+            return None
+        info2 = sweep(res, pu.hist2d, fargs, None, first, label + " [non-associative weights]", reps=1, compare=same_as_first,
+                      threads=[1, 2, 3, 4, 16], chunks=[0, max(1, m2 // 64)], budget_s=10)
+        info["float_weight_runs"] = info2["runs"]
+        info["float_weight_distinct_results"] = info2["distinct_results"]
     info.update(prange_loops=cm["prange_loops"], hazards=len(cm["hazards"]), lost_update_hazards=len(lost))
     if lost and not res.violations:
         res.tag("unconfirmed-hazard")
